@@ -162,7 +162,10 @@ class Prop:
         raise KeyError("%s.%s has no value labelled %r" % (self.owner, self.name, label))
 
     def alphabet(self, thorough):
-        return [v for v in self.values if thorough or not v.thorough_only]
+        # every value (every enumeration member included) is assigned on its own in BOTH tiers: single assignments
+        # are cheap, and a defect confined to one member (seed C09-w3-3: Font.underline = WORDS) is otherwise seen
+        # only by the thorough tier. `thorough_only` now only keeps a value out of the quick pair alphabets.
+        return list(self.values)
 
     def pair_alphabet(self, thorough):
         out = [v for v in self.values if v.pair]
